@@ -378,3 +378,82 @@ func Large(n, pattern, payload int) []Doc {
 	}
 	return batch
 }
+
+// ---- MERGE scopes ----
+
+// MergeKinds orders the MIX kinds so that a prefix is already diverse (1-hit candidates,
+// locations+stored, composite, a field only some segments have, ...).
+var MergeKinds = []int{1, 2, 4, 6, 0, 3, 5, 7, 8, 9, 10, 11}
+
+// SegSpec is one input segment of a merge case: the kinds of its documents and its deletions.
+type SegSpec struct {
+	Kinds []int    // indices into MergeKinds
+	Drops []uint32 // valid if HasDrops
+	// DropForm: 0 = nil bitmap, 1 = non-nil bitmap holding Drops (possibly empty)
+	DropForm int
+}
+
+func (s SegSpec) Batch(tag string) []Doc {
+	b := make([]Doc, len(s.Kinds))
+	for i, k := range s.Kinds {
+		b[i] = MixDoc(MergeKinds[k], tag, i)
+	}
+	return b
+}
+
+func (s SegSpec) String() string {
+	d := "nil"
+	if s.DropForm == 1 {
+		d = fmt.Sprint(s.Drops)
+	}
+	ks := make([]int, len(s.Kinds))
+	for i, k := range s.Kinds {
+		ks[i] = MergeKinds[k]
+	}
+	return fmt.Sprintf("kinds%v drop=%s", ks, d)
+}
+
+// SegOptions enumerates every (batch of <=maxDocs docs over K kinds, deletion bitmap).
+// Deletions: nil; for 2+ docs also the empty non-nil bitmap; every non-empty subset.
+func SegOptions(K, maxDocs int) []SegSpec {
+	var out []SegSpec
+	for n := 0; n <= maxDocs; n++ {
+		Pow(K, n, func(v []int) bool {
+			kinds := append([]int(nil), v...)
+			out = append(out, SegSpec{Kinds: kinds})
+			if n >= 2 {
+				out = append(out, SegSpec{Kinds: kinds, DropForm: 1})
+			}
+			for mask := 1; mask < 1<<uint(n); mask++ {
+				var d []uint32
+				for i := 0; i < n; i++ {
+					if mask&(1<<uint(i)) != 0 {
+						d = append(d, uint32(i))
+					}
+				}
+				out = append(out, SegSpec{Kinds: kinds, Drops: d, DropForm: 1})
+			}
+			return true
+		})
+	}
+	return out
+}
+
+// MergeLists enumerates every list of 1..k segment specs drawn from opts.
+func MergeLists(opts []SegSpec, k int, yield func(idx int64, segs []SegSpec) bool) {
+	var idx int64
+	for n := 1; n <= k; n++ {
+		ok := Pow(len(opts), n, func(v []int) bool {
+			segs := make([]SegSpec, n)
+			for i, o := range v {
+				segs[i] = opts[o]
+			}
+			r := yield(idx, segs)
+			idx++
+			return r
+		})
+		if !ok {
+			return
+		}
+	}
+}
